@@ -6,7 +6,7 @@ from pyvc import spec as S
 from pyvc.arr import SymArr, as_array, havoc_array, new_array, unflatten
 from pyvc.lemmas import Lemma
 from pyvc.contract import Contract, register
-from pyvc.core import and_, ctx, iff, implies, is_sym, ite, not_, or_
+from pyvc.core import and_, ctx, iff, implies, is_sym, ite, not_, or_, sqdist
 from pyvc.prelude_scipy import SymKDTree
 from pyvc.spec import All, AnyOf, Exists, ExistsInt, Forall, Imp, close, ge, hint, le
 
@@ -265,7 +265,7 @@ class BlockSplit(Contract):
         # nearest-centre rule (covers the points outside the region: nearest border block)
         out["label_is_a_nearest_block_centre"] = Forall(
             (npts, nb),
-            lambda p, j: le(_d2(e.at(p), n.at(p), be.at(labels.at(p)), bn.at(labels.at(p))), _d2(e.at(p), n.at(p), be.at(j), bn.at(j)), _scale2(e, n, p)),
+            lambda p, j: le(sqdist((e.at(p), n.at(p)), (be.at(labels.at(p)), bn.at(labels.at(p)))), sqdist((e.at(p), n.at(p)), (be.at(j), bn.at(j))), _scale2(e, n, p)),
         )
         sp_n, sp_e = _spacing_pair(a.spacing)
         sh_n, sh_e = a.shape if a.shape is not None else (None, None)
@@ -291,7 +291,10 @@ class BlockSplit(Contract):
                     margin = _margin(e.at(p), be.at(j), he, n.at(p), bn.at(i * ne), hn)
                     L = labels.at(p)
                     row, col = unflatten(L, (nn, ne))  # label = row*ne + col
-                    VORONOI_RECT.apply(W=w, S=s, he=he, hn=hn, x=e.at(p), y=n.at(p), i=i, j=j, qL=row, rL=col, cje=be.at(j), cin=bn.at(i * ne), cLe=be.at(L), cLn=bn.at(L))
+                    # geometry is needed here: state the defining polynomials of the two squared distances
+                    sqdist((e.at(p), n.at(p)), (be.at(L), bn.at(L)), define=True)
+                    sqdist((e.at(p), n.at(p)), (be.at(i * ne + j), bn.at(i * ne + j)), define=True)
+                    VORONOI_RECT.apply(W=w, S=s, he=he, hn=hn, x=e.at(p), y=n.at(p), i=i, j=j, qL=row, rL=col, cje=be.at(i * ne + j), cin=bn.at(i * ne + j), cLe=be.at(L), cLn=bn.at(L))
                     return implies(and_(inside, margin), and_(row == i, col == j))
 
                 parts["point_strictly_inside_a_block_gets_its_label"] = Forall((npts, nn, ne), strictly_inside)
